@@ -811,7 +811,11 @@ impl AwsClientBuilder {
     }
 
     fn build_final_connect_options(&self, connect_options: ConnectOptions) -> ConnectOptions {
-        let is_auto_assigned_client_id = connect_options.client_id().is_none();
+        // an empty client id asks the broker to assign one, exactly like an absent one
+        let is_auto_assigned_client_id = match connect_options.client_id() {
+            Some(client_id) => client_id.len() == 0,
+            None => true,
+        };
         let mut final_connect_options_builder = ConnectOptions::builder_from_existing(connect_options);
 
         if let Some(options) = &self.custom_auth_options {
